@@ -6,6 +6,7 @@ from .common import TRUSTED, Ctx
 def check(rep):
     ctx = Ctx(rep)
     ctx.shape_options.add("overflow")      # numbers beyond the float range: how they are spelled may need a name the evaluator lacks
+    ctx.shape_options.add("skeleton-names")  # fields named like the names the generated module itself uses
     # first the rule that reads the entry points themselves (both must hand the generator's output on, unchanged)
     info = PR.rule_one_generator(ctx)
     PR.rule_compiles(ctx, rid="C14.BOTH-LAYOUTS-PARSE", text_only=True)
@@ -15,6 +16,8 @@ def check(rep):
     # "the evaluator built from the same source": the function it runs is the one compiled from that source, whatever happened before
     # or to other evaluators
     ER.rule_installed_function(ctx, rid="C14.EVALUATOR-RUNS-ITS-TEXT", strict=False, facets=("installed",))
+    # ... and a reload that was refused leaves it serving the text it had
+    ER.rule_commit_order(ctx, rid="C14.EVALUATOR-KEEPS-ITS-TEXT")
     PR.rule_layouts_agree(ctx)
     PR.rule_depth_unbounded(ctx)
     PR.rule_header_imports(ctx)
